@@ -76,11 +76,15 @@ func VP_C08_split3() {
 }
 
 //vp:property C08
-//vp:set bmax 2 4
-//vp:bounds two packets delivered in one read (coalesced), and the variant where the read also ends inside the second packet
+//vp:set bmax 2 3
+//vp:set k 3 4
+//vp:bounds k packets (quick 3, thorough 4; symbolic types, bodies 0..bmax symbolic bytes) delivered in ONE read, so that all but the first are served from bytes buffered by an earlier call
 func VP_C08_coalesce() {
-	pkts, types, bodies := vpStream(2, vpParam("bmax"))
-	both := append(append([]byte{}, pkts[0]...), pkts[1]...)
+	pkts, types, bodies := vpStream(vpParam("k"), vpParam("bmax"))
+	var both []byte
+	for _, p := range pkts {
+		both = append(both, p...)
+	}
 	tr := &vpTransport{in: [][]byte{both}}
 	vpExpectPackets(tr, types, bodies, "coalesce")
 }
@@ -175,7 +179,7 @@ func VP_C10_readHeader() {
 }
 
 //vp:property C08 C06
-//vp:set npk 2 3
+//vp:set npk 3 3
 //vp:set loopmax 600000 600000
 //vp:bounds websocket transport through handleWebsocketProtocol: the four set-up packets (one per message), then ONE websocket message carrying npk DATA packets of the largest payload (65535 bytes each; first and last byte of each symbolic), then the client drops; whatever read limit the handler configures on the connection is honoured by the transport model
 //vp:assume gorilla: a message larger than the configured read limit fails the read; no limit is configured by default
